@@ -6,7 +6,8 @@ from concurrent.futures import ThreadPoolExecutor
 ROOT = os.path.dirname(os.path.dirname(os.path.abspath(__file__)))
 jobs = int(sys.argv[1]) if len(sys.argv) > 1 else 3
 ids = sys.argv[2:] or sorted(os.path.basename(d) for d in glob.glob(os.path.join(ROOT, 'seeded', 'C*-*')))
-EXTRA = {'C20-1': ['C09'], 'C05-2': ['C06'], 'C03-1': ['C06'], 'C04-1': ['C06']}
+EXTRA = {'C20-1': ['C09'], 'C05-2': ['C06'], 'C03-1': ['C06'], 'C04-1': ['C06'], 'C14-5': ['C19'], 'C20-6': ['C02'], 'C04-6': ['C06'],
+         'C03-6': ['C10'], 'C03-7': ['C11'], 'C06-8': ['C03'], 'C09-5': ['C20'], 'C03-8': ['C06'], 'C15-5': ['C11']}
 
 
 def run(sid):
